@@ -94,19 +94,20 @@ inline void build(Node &n, int &next_port, int &next_node)
 struct Exp { int kind; int port_id; void *obj; std::string loc; bool optional; };
 
 // reference: which callbacks must run for relative address `addr` with type string `types`
-inline void expect(Node &n, const std::string &addr, const std::string &types, const std::string &loc_prefix, std::vector<Exp> &out)
+inline void expect(Node &n, const std::string &addr, const std::string &types, const std::string &loc_prefix, std::vector<Exp> &out, bool optional_above = false)
 {
     for(auto &p : n.ports) {
         refmatch::Verdict v = refmatch::verdict(p.pat, addr, types);
         if(v == refmatch::MUST_NOT) continue;
-        if(!p.child) { out.push_back(Exp{LEAF, p.id, &n.obj_tag, loc_prefix + addr, v == refmatch::DONT_CARE}); continue; }
-        out.push_back(Exp{SUBTREE, p.id, &n.obj_tag, "", v == refmatch::DONT_CARE});
+        const bool opt = optional_above || v == refmatch::DONT_CARE;   // below a don't-care sub-tree everything is don't care
+        if(!p.child) { out.push_back(Exp{LEAF, p.id, &n.obj_tag, loc_prefix + addr, opt}); continue; }
+        out.push_back(Exp{SUBTREE, p.id, &n.obj_tag, "", opt});
         int comps = 0; for(char c : p.pat.path) if(c == '/') ++comps;
         size_t sl = std::string::npos, from = 0;
         for(int k = 0; k < comps; ++k) { sl = addr.find('/', from); if(sl == std::string::npos) break; from = sl + 1; }
         std::string rest = sl == std::string::npos ? std::string() : addr.substr(sl + 1);
         std::string pre = loc_prefix + (sl == std::string::npos ? addr : addr.substr(0, sl + 1));
-        expect(*p.child, rest, types, pre, out);
+        expect(*p.child, rest, types, pre, out, opt);
     }
 }
 
